@@ -98,6 +98,13 @@ Definition c14_holds (c : c14_case) : bool :=
        && rtext_eqb o_compl (Ok (spec_format d rd (spec_missing S start (window_end S start stop))))
        && rranges_eqb o_ranges (Ok (spec_ranges L)))
   | CRange s d rd start stop o_parse o_compl o_ranges =>
+      (* a well-formed string must be read as the reference reads it ... *)
+      (match d, rd with
+       | [dc], [rc] => negb (delims_ok d rd) ||
+                       match read_ranges dc rc s with Some l => rzs_eqb o_parse (Ok l) | None => true end
+       | _, _ => true
+       end) &&
+      (* ... and complement / ranges are relative to the integers read *)
       match o_parse with
       | Ok ints =>
           negb (delims_ok d rd) ||
@@ -107,7 +114,7 @@ Definition c14_holds (c : c14_case) : bool :=
       end
   | CGzip b level o_head o_tail o_rt o_dec o_enc =>
       let bb := expand b in
-      (1 <=? level) && (level <=? 9)
+      (1 <=? level) && (level <=? 9) && gz_frame_ok bb o_head o_tail
       && blob_res_is o_rt bb && blob_res_is o_dec bb && blob_res_is o_enc bb
   | CSpecSh s shells =>
       match sh_split s with
@@ -124,6 +131,7 @@ Inductive c14_expl :=
 | XInt (m_fmt : text) (m_parse : res (list Z)) (m_compl : res text) (m_ranges : res (list (Z * Z)))
        (s_fmt : text)
 | XGzip (m_tail : list N)
+
 | XSpec (r : option (list text)).
 
 Definition c14_explain (c : c14_case) : c14_expl :=
